@@ -235,6 +235,8 @@ func (r *yieldRewriter) rewriteStmt(
 			// ↓↓ trival branch ↓↓
 			// rewrite next stmt in current block
 			// no need combine cause of prev stmt is trival
+			// e.g., (Yield(1)), otherwise the yield call would be dropped silently
+			r.assert(r.mustNoYield(stmt), stmt, "yield must be called as a statement")
 			children.push(stmt, kindTrival)
 			return children
 		}
@@ -308,6 +310,8 @@ func (r *yieldRewriter) rewriteStmt(
 		// ↓↓ trival branch ↓↓
 		// all other stmt are trival,
 		// no rewriting, no combine
+		// e.g., go Yield(1), otherwise the yield call would be dropped silently
+		r.assert(r.mustNoYield(stmt), stmt, "yield not supported in %T", stmt)
 		children.push(stmt, kindTrival)
 		return children
 	}
@@ -379,6 +383,9 @@ func (r *yieldRewriter) rewriteIfStmt(
 		}
 		return block
 	}
+
+	trivalInit := r.mustNoYield(stmt.Init)
+	r.assert(trivalInit, stmt.Init, "yield in if-init not supported")
 
 	switch alt := stmt.Else.(type) {
 	case nil:
